@@ -241,6 +241,63 @@ def h_min(ctx, which, n, W, routes, srcs, discipline, target, common_x=False,
     for e, s in zip(table, snapshot):
         ctx.prove(sand(e.key == s[1], e.mask == s[2]),
                   "minimise-argument-modified")
+    _check_process_state(ctx)
+
+
+def _check_process_state(ctx):
+    """ordered_covering's `aliases=dict()` default is process-wide state: if
+    a minimisation writes into it, later tables (other chips of the same
+    minimise_tables call, later calls) are minimised against stale aliases.
+    Reported here (and repaired, so that the engine's later paths in this
+    worker are meaningful)."""
+    from rig.routing_table import ordered_covering as oc
+    d = oc.ordered_covering.__defaults__[0]
+    clean = isinstance(d, dict) and len(d) == 0
+    if not clean and isinstance(d, dict):
+        d.clear()
+    ctx.prove(clean, "minimise-default-aliases-mutated")
+
+
+def h_two_chips(ctx, W, routes_a, routes_b, srcs_b, target):
+    """minimise_tables over two chips in one call: what was learnt while
+    minimising the first chip's table must not leak into the second's (the
+    alias map of ordered covering is per table)."""
+    from rig.routing_table import MinimisationFailedError
+    import rig.routing_table as rt
+    na, nb = len(routes_a), len(routes_b)
+    # chip A: fully specified entries (they merge), chip B: a table in
+    # increasing generality; both under the same symbolic prefix
+    ta = make_table(ctx, na, W, routes_a, "u" * na, "orthogonal", False,
+                    exact=na)
+    tb = make_table(ctx, nb, W, routes_b, srcs_b, "sorted", False)
+    orig_a, orig_b = list(ta), list(tb)
+    t = _target(ctx, max(na, nb), target)
+    pk = ctx.bv("pk", 32)
+    tables = {(0, 0): ta, (1, 0): tb}
+    _check_process_state(ctx)
+    try:
+        out = rt.minimise_tables(tables, t)
+    except MinimisationFailedError as e:
+        ctx.observe("failed", e.final_length)
+        ctx.witness("failed")
+        ctx.prove(t is not None, "minimise-failed-without-target")
+        return
+    except Exception as e:
+        ctx.observe(type(e).__name__)
+        ctx.prove(False, "minimise-unexpected-exception", repr(e))
+        return
+    ctx.witness("returned")
+    oa, ob = out.get((0, 0), []), out.get((1, 0), [])
+    if len(oa) < na:
+        ctx.witness("first-chip-merged")
+    ctx.observe(len(oa), len(ob),
+                [(e.key, e.mask, sorted(int(r) for r in e.route))
+                 for e in oa + ob])
+    ctx.prove(len(oa) <= na and len(ob) <= nb, "minimise-longer")
+    check_equivalent(ctx, orig_a, oa, pk, "minimise-route-changed")
+    check_equivalent(ctx, orig_b, ob, pk, "minimise-route-changed")
+    ctx.prove(set(out) <= {(0, 0), (1, 0)}, "minimise-tables-extra-chip")
+    _check_process_state(ctx)
 
 
 def h_empty(ctx):
@@ -309,7 +366,18 @@ def units(tier, seed):
     # the method chain, one and many chips
     add("chain", 3, 2, "AAB", "ddu", "orthogonal", "sym", split=5)
     add("tables", 2, 3, "AA", "du", "sorted", "sym", split=4)
+    us.append(Unit("tables two chips W=2 A=AA B=BBA target=none", h_two_chips,
+                   dict(W=2, routes_a="AA", routes_b="BBA", srcs_b="uuu",
+                        target="none"), split=6,
+                   witnesses=("returned", "first-chip-merged"),
+                   path_timeout_s=300, timeout_ms=300000))
     if tier == "thorough":
+        us.append(Unit("tables two chips W=3 A=AA B=BBA target=sym",
+                       h_two_chips,
+                       dict(W=3, routes_a="AA", routes_b="BBA", srcs_b="udu",
+                            target="sym"), split=8,
+                       witnesses=("returned", "first-chip-merged"),
+                       path_timeout_s=300, timeout_ms=300000))
         add("rdr", 4, 3, "ABAD", "ddud", "any", "sym", split=6)
         add("rdr", 5, 2, "ABADB", "ddodd", "any", "none", split=6)
         for disc in ("orthogonal", "sorted"):
